@@ -23,6 +23,7 @@ import (
 	"strings"
 	"sync"
 	"sync/atomic"
+	"syscall"
 	"time"
 
 	"verifharness/fb"
@@ -258,6 +259,19 @@ func (p *c17Proc) clientStream(ctx *Ctx, kind int, desc string, startup primitiv
 				// notices the short input, which can take seconds: slow, but answered
 				f, err := cl.Next(30 * time.Second)
 				offending = f != nil || err != nil // answered, or closed
+				if !offending && p.alive() && os.Getenv("VH_DEBUG") != "" {
+					// diagnostics: what every goroutine of the proxy is doing right now (this ends the proxy process)
+					fmt.Fprintf(os.Stderr, "DEBUG c17: no answer to %s\n", desc)
+					snap := p.be.Snapshot()
+					for i := max(0, len(snap)-25); i < len(snap); i++ {
+						x := snap[i]
+						fmt.Fprintf(os.Stderr, "DEBUG c17 backend log: #%d %s host=%s conn=%d stream=%d opcode=%d tok=%q id=%s attempt=%d\n", x.Seq, x.Kind, x.Host, x.ConnID, x.Stream, x.Opcode, x.Token, x.PreparedID, x.Attempt)
+					}
+					_ = p.cmd.Process.Signal(syscall.SIGQUIT)
+					time.Sleep(2 * time.Second)
+					fmt.Fprintf(os.Stderr, "DEBUG c17 proxy stderr:\n%s\n", p.stderr.String())
+					os.Exit(3)
+				}
 			} else {
 				f, err := cl.Next(150 * time.Millisecond)
 				_ = f
@@ -468,15 +482,15 @@ func c17Compressed(ctx *Ctx) {
 		bodies = append(bodies, b)
 	}
 	bodies = append(bodies,
-		append(be32(8), 0x40, 'a', 'b', 'c', 'd', 0, 0),                      // offset 0
-		append(be32(8), 0x40, 'a', 'b', 'c', 'd', 9, 0),                      // offset beyond the output
-		append(be32(100), 0xf0, 255, 255, 255),                               // literal length that never ends
-		append(be32(100), 0x0f, 1, 0, 255, 255, 255),                         // match length that never ends, no output to copy from
-		append(be32(4), 0x40, 'a', 'b'),                                      // literals beyond the input
-		append(be32(2), 0x40, 'a', 'b', 'c', 'd'),                            // stated length too short for the literals
-		append(be32(0x7fffffff), 0x40, 'a', 'b', 'c', 'd'),                   // huge stated length
-		append(be32(0xffffffff), 0x10, 'a'),                                  // "negative" stated length
-		be32(0), be32(5), []byte{0, 0}, []byte{},                                 // nothing after the length, short length field
+		append(be32(8), 0x40, 'a', 'b', 'c', 'd', 0, 0),    // offset 0
+		append(be32(8), 0x40, 'a', 'b', 'c', 'd', 9, 0),    // offset beyond the output
+		append(be32(100), 0xf0, 255, 255, 255),             // literal length that never ends
+		append(be32(100), 0x0f, 1, 0, 255, 255, 255),       // match length that never ends, no output to copy from
+		append(be32(4), 0x40, 'a', 'b'),                    // literals beyond the input
+		append(be32(2), 0x40, 'a', 'b', 'c', 'd'),          // stated length too short for the literals
+		append(be32(0x7fffffff), 0x40, 'a', 'b', 'c', 'd'), // huge stated length
+		append(be32(0xffffffff), 0x10, 'a'),                // "negative" stated length
+		be32(0), be32(5), []byte{0, 0}, []byte{},           // nothing after the length, short length field
 		append(be32(1<<20), append([]byte{0x1f, 'x', 1, 0}, bytes.Repeat([]byte{255}, 4000)...)...), // one byte repeated a million times
 	)
 	for i := 0; i < ctx.Scale(20, 3000); i++ {
@@ -503,10 +517,70 @@ func c17Compressed(ctx *Ctx) {
 	}
 }
 
+// c17FlaggedPrepare: a PREPARE whose header carries flags that mean nothing on a request (warning, tracing, beta), from
+// clients of several versions and compressions; the hosts then forget the statement and a v4 client EXECUTEs it.  Whatever
+// the proxy makes of such a PREPARE when it re-prepares the statement, the EXECUTE must be answered (the re-preparation
+// can yield another id than the one the host asked for: executing again and again would never end).
+func c17FlaggedPrepare(ctx *Ctx) {
+	var cfg c17Cfg
+	for _, c := range c17Cfgs {
+		if c.name == "max-dse2" {
+			cfg = c
+		}
+	}
+	p := startC17(cfg)
+	defer p.stop()
+	n := 0
+	for _, v := range []primitive.ProtocolVersion{3, 4, 5, 66} {
+		for _, comp := range []string{"", "lz4", "snappy"} {
+			if v == 5 && comp == "snappy" {
+				continue
+			}
+			for _, fl := range []byte{0x08, 0x0a, 0x10} {
+				if !p.alive() {
+					return
+				}
+				n++
+				q := fmt.Sprintf("SELECT v FROM ks.t WHERE k = ? AND n = %d", n)
+				cl, err := px.Dial(p.addr)
+				if err != nil || cl.Startup(v, comp) != nil {
+					continue
+				}
+				raw := cl.Encode(v, 7, &message.Prepare{Query: q}, func(f *frame.Frame) {
+					if comp != "" {
+						f.SetCompress(true)
+					}
+				})
+				raw[1] |= fl
+				_ = cl.SendRaw(raw)
+				f, _ := cl.Next(3 * time.Second)
+				cl.Close()
+				if f == nil || f.Opcode != byte(primitive.OpCodeResult) {
+					continue // refused: nothing to follow up
+				}
+				p.be.Forget(1)
+				p.be.Forget(2)
+				answered := false
+				if c2, err := px.Dial(p.addr); err == nil {
+					if c2.Startup(primitive.ProtocolVersion4, "") == nil {
+						id := md5Of(q)
+						_ = c2.Send(primitive.ProtocolVersion4, 9, &message.Execute{QueryId: id, ResultMetadataId: id, Options: &message.QueryOptions{PositionalValues: []*primitive.Value{primitive.NewValue([]byte("tok:fp"))}}})
+						f2, err2 := c2.Next(5 * time.Second)
+						answered = f2 != nil || err2 != nil
+					}
+					c2.Close()
+				}
+				p.verdict(ctx, 19, fmt.Sprintf("PREPARE v%d %q flags %#x accepted, hosts forget, EXECUTE by a v4 client", v, comp, fl), answered, "flagged-prepare-then-execute")
+			}
+		}
+	}
+}
+
 func genC17(ctx *Ctx) {
 	r := ctx.Rng
 	lz4Phase(ctx)
 	c17SysRows(ctx)
+	c17FlaggedPrepare(ctx)
 	c17Compressed(ctx)
 	c17FailedSession(ctx)
 	c17SessionRace(ctx)
